@@ -14,12 +14,24 @@ open QipVerif.Qasm
 /-! ## the class of exportable circuits -/
 
 /-- library gate name ↦ (controls, targets, parameters): the exportable gates of the property -/
-def exportShape : List (Str × Nat × Nat × Nat) := [
+def baseShape : List (Str × Nat × Nat × Nat) := [
   (cs!"QASMU", 0, 1, 3), (cs!"RX", 0, 1, 1), (cs!"RY", 0, 1, 1), (cs!"RZ", 0, 1, 1),
   (cs!"SNOT", 0, 1, 0), (cs!"X", 0, 1, 0), (cs!"Y", 0, 1, 0), (cs!"Z", 0, 1, 0), (cs!"S", 0, 1, 0),
   (cs!"T", 0, 1, 0), (cs!"SQRTNOT", 0, 1, 0), (cs!"CNOT", 1, 1, 0), (cs!"CRX", 1, 1, 1),
   (cs!"CRY", 1, 1, 1), (cs!"CRZ", 1, 1, 1), (cs!"CS", 1, 1, 0), (cs!"CT", 1, 1, 0),
   (cs!"SWAP", 0, 2, 0), (cs!"TOFFOLI", 2, 1, 0)]
+
+/-- `CSIGN` and `CZ` are exportable on a tree whose `_GATE_NAME_TO_QASM_NAME` writes them as the `qelib1.inc`
+gate `cz` (fix C10-4); on other trees the list is empty -/
+def lateShape : List (Str × Nat × Nat × Nat) :=
+  [(cs!"CSIGN", 1, 1, 0), (cs!"CZ", 1, 1, 0)].filter fun e => lookup Gen.gateNameToQasm e.1 == some cs!"cz"
+
+def exportShape : List (Str × Nat × Nat × Nat) := baseShape ++ lateShape
+
+theorem mem_lateShape {e : Str × Nat × Nat × Nat} (h : e ∈ lateShape) :
+    (e = (cs!"CSIGN", 1, 1, 0) ∨ e = (cs!"CZ", 1, 1, 0)) ∧ lookup Gen.gateNameToQasm e.1 = some cs!"cz" := by
+  simp only [lateShape, List.mem_filter, List.mem_cons, List.not_mem_nil, or_false, beq_iff_eq] at h
+  exact h
 
 def shapeOf (name : Str) : Option (Nat × Nat × Nat) :=
   (exportShape.find? (fun e => e.1 == name)).map (·.2)
